@@ -44,9 +44,21 @@ def cleanup_spec_dir():
 
 
 def check_models(ctx, cfgs, what, workers=4):
+    """E1.  thorough: ctx.check_model (TLC -coverage: fails on a vacuous run).  quick: the same model checking without the
+    coverage instrumentation (it costs ~5x the whole run on this functional-style spec); a violated invariant is reported
+    exactly as check_model does."""
     for cfg, label in cfgs:
-        ctx.check_model(SPEC, 'MCTaskSet.tla', cfg, what, label=label, workers=workers, vacuity_exempt=VAC,
-                        extra=['-noGenerateSpecTE'], timeout=1500)
+        if ctx.tier == 'thorough':
+            ctx.check_model(SPEC, 'MCTaskSet.tla', cfg, what, label=label, workers=workers, vacuity_exempt=VAC,
+                            extra=['-noGenerateSpecTE'], timeout=3000)
+            continue
+        res = ctx.tlc(SPEC, 'MCTaskSet.tla', cfg, workers=workers, label=label, extra=['-noGenerateSpecTE'], timeout=1500)
+        if res.violation:
+            path = ctx.save_replay('%s-MCTaskSet-%s.txt' % (ctx.prop, cfg.replace('.cfg', '')),
+                                   'TLC %s on MCTaskSet.tla/%s\n\n%s' % (res.violation, cfg, res.counterexample()))
+            ctx.violation('model:MCTaskSet.tla:%s:%s' % (cfg, res.violation), what + ': ' + res.violation, path)
+        elif res.distinct < 20:
+            raise vlib.ToolError('vacuous model run MCTaskSet.tla/%s: %d states' % (cfg, res.distinct))
 
 
 def expect_model_violation(ctx, cfg, invariant, what, label):
@@ -55,6 +67,28 @@ def expect_model_violation(ctx, cfg, invariant, what, label):
     if res.violation != 'Invariant ' + invariant:
         raise vlib.ToolError('%s: expected the unrepaired model %s to violate %s, got %s' % (what, cfg, invariant, res.violation))
     return res
+
+
+def drop_spurious_deadlock(trace):
+    """harness/ctl race: the controller can declare Deadlock although a thread that just left a real blocking region
+    (thread::join in resize / ~ThreadPool) is runnable - the Deadlock line then lists a thread in state 2 (ST_POINT) at a
+    non-gate site.  Such an aborted execution says nothing about the code: it is cut out of the trace (from its Reset)."""
+    import json
+    lines = open(trace).read().split('\n')
+    while lines and not lines[-1]:
+        lines.pop()
+    if not lines or '"e":"Deadlock"' not in lines[-1]:
+        return False
+    ev = json.loads(lines[-1])
+    if not any(st == 2 and not site.startswith('Gate') for _, st, site in ev.get('threads', [])):
+        return False
+    i = len(lines) - 1
+    while i > 0 and '"e":"Reset"' not in lines[i]:
+        i -= 1
+    lines = lines[:i]
+    with open(trace, 'w') as f:
+        f.write('\n'.join(lines) + ('\n' if lines else ''))
+    return True
 
 
 # every action that not every configuration exercises
@@ -102,6 +136,9 @@ def run_scenarios(ctx, exe, scens, what, n, seed, label, unfixed=False, pct=-1, 
             nxt = int(m.group(1)) if m else len(scens)
             for inc in re.finditer(r'^INCOMPLETE scen=(\d+) seed=(\d+) deadlock=(\d) steps=(\d+)', outp, re.M):
                 si = int(inc.group(1))
+                if inc.group(3) == '1' and drop_spurious_deadlock(tr):
+                    ctx.cov['harness_spurious_deadlocks_discarded'] = ctx.cov.get('harness_spurious_deadlocks_discarded', 0) + 1
+                    continue
                 kind = 'deadlock' if inc.group(3) == '1' else 'stalled'
                 problems.append((kind, 'scenario %s (seed %s): execution never completes (%s after %s steps)' %
                                  (scens[si], inc.group(2), kind, inc.group(4))))
@@ -111,6 +148,9 @@ def run_scenarios(ctx, exe, scens, what, n, seed, label, unfixed=False, pct=-1, 
                                            'scenario %s\nseed %s\nthe controlled execution did not terminate: %s after %s steps\n\n%s' %
                                            (scens[si], inc.group(2), kind, inc.group(4), ctx._trace_context(tr, nl)))
                     ctx.violation('%s:%s' % (kind, scens[si]), '%s: execution never completes (%s) [%s]' % (what, kind, label), path)
+            if os.path.getsize(tr) == 0:
+                first = nxt
+                continue
             res = ctx.validate(SPEC, 'TaskSetTrace.tla', cfg, tr, what + ' [' + label + ']',
                                executions=tot.get('completed', 0), label=label, report=final and report, timeout=1500)
             if res.violation:
